@@ -71,7 +71,8 @@ def run_property(pid, tier, repo, replay=None, quiet=False):
         # instance floors
         for r in results:
             floor = props.FLOORS.get(r.rule)
-            if floor is not None and not getattr(r, 'scoped', False) and r.n < floor:
+            if floor is not None and not getattr(r, 'scoped', False) and not r.findings \
+                    and r.n < floor:
                 raise AnalysisError(
                     "rule %s enumerated %d instance(s), below the confirmed floor %d: the rule "
                     "no longer sees the code it is meant to check" % (r.rule, r.n, floor))
